@@ -1,0 +1,25 @@
+//go:build verif
+// +build verif
+
+package criteria_splitting
+
+// Contracts for gocv (comment-only; compiled out unless the tag "verif" is set, and empty then).
+
+//@ spec pivot(n int, c CriteriaSplitCondition) int =
+//@      let p = floor(real(n) * c.Ratio) in (p < c.Min ? c.Min : (p > c.Max ? c.Max : p))
+
+//@ func (*CriteriaSplitCondition).validate
+//@   property C15 C16 C20
+//@   panics_iff [ratio_or_bounds] !(0.0 <= c.Ratio && c.Ratio <= 1.0) || c.Max < c.Min
+
+//@ func (*CriteriaSplitCondition).SplitCriteriaByOrdering
+//@   property C15 C16
+//@   panics_iff [pivot_out_of_range] pivot(len(*sortedCriteria), *c) < 0 || pivot(len(*sortedCriteria), *c) > len(*sortedCriteria)
+//@   ensures [left]  fresh(result) && *result.Left == (*sortedCriteria)[0:pivot(len(*sortedCriteria), *c)]
+//@   ensures [right] *result.Right == (*sortedCriteria)[pivot(len(*sortedCriteria), *c):]
+
+//@ lemma [C15 C16] pivot_is_clamped_floor: forall n int, c CriteriaSplitCondition
+//@   requires n >= 0 && 0.0 <= c.Ratio && c.Ratio <= 1.0 && c.Min <= c.Max
+//@   ensures  c.Min <= pivot(n, c) && pivot(n, c) <= c.Max
+//@   ensures  (c.Min <= floor(real(n) * c.Ratio) && floor(real(n) * c.Ratio) <= c.Max) ==> pivot(n, c) == floor(real(n) * c.Ratio)
+//@   ensures  real(floor(real(n) * c.Ratio)) <= real(n) * c.Ratio && real(n) * c.Ratio < real(floor(real(n) * c.Ratio)) + 1.0
